@@ -7,7 +7,7 @@
 //	       | 's' D string of D bytes | 'b' D bytes of D bytes
 //	       | 'l' link: CIDv1, free single-byte codec, identity multihash with 2 free digest bytes
 //	       | 'L' link: CIDv0 (sha2-256 multihash, 2 free digest bytes, 30 fixed)
-//	       | '[' value* ']' | '{' (D value)* '}'   D = key length in bytes, or 'c' for the concrete key "a","b",…
+//	       | '[' value* ']' | '{' (D value)* '}'   D = key length in bytes, 'c' for the concrete key "a","b",…, or a quoted literal key
 //
 // Every leaf is a fresh symbolic value (all 2^64 ints, all byte strings of the stated length).
 package gen
@@ -92,6 +92,13 @@ func (p *parser) value() *refval.V {
 			if p.s[p.pos] == 'c' { // concrete key: "a", "b", ... by position
 				p.pos++
 				v.Keys = append(v.Keys, string(rune('a'+len(v.Keys))))
+			} else if p.s[p.pos] == '"' { // literal key
+				e := p.pos + 1
+				for p.s[e] != '"' {
+					e++
+				}
+				v.Keys = append(v.Keys, p.s[p.pos+1:e])
+				p.pos = e + 1
 			} else {
 				kl := p.digit()
 				v.Keys = append(v.Keys, nd.String(p.name("k"), kl))
